@@ -341,7 +341,7 @@ MB_SHAPES = {"quick": ((4,), (2, 3), (3, 2), (3, 4), (4, 3), (2, 2, 2)), "thorou
 MBS_SHAPES = {"quick": ((4,), (5,), (2, 3), (3, 2), (3, 4), (2, 2, 2)), "thorough": ((4,), (5,), (6,), (2, 3), (3, 2), (3, 4), (4, 3), (2, 2, 2), (2, 3, 2), (4, 4))}
 MBZ_N = {"quick": 4, "thorough": 5}
 MB0_SHAPES = {"quick": ((1,), (2,), (3,), (4,), (5,), (2, 3), (3, 2), (3, 4), (2, 2, 2)), "thorough": ((1,), (2,), (3,), (4,), (5,), (6,), (7,), (2, 3), (3, 2), (3, 4), (4, 4), (2, 2, 2), (2, 3, 2))}
-BW_SIZES = {"quick": {"i": 3, "j": 4, "k": 2}, "thorough": {"i": 4, "j": 4, "k": 3}}
+BW_SIZES = {"quick": {"i": 4, "j": 4, "k": 2}, "thorough": {"i": 4, "j": 4, "k": 3}}
 ARGLISTS = (
     ("x",),
     ("x", "same"),
